@@ -63,3 +63,116 @@ def generic(op, old_ir, new_ir, call):
     if live_window_alias(old_ir):
         d["live_window_alias"] = True
     return d
+
+
+# ----------------------------------------------------------------------------
+def has_diamond(ir):
+    """some statement object occurs at two places of the tree (shared after
+    specialize / unroll / fission duplication)"""
+    seen = set()
+    for _, s in irutil.all_stmts(ir):
+        if isinstance(s, (LoopIR.Pass,)):
+            continue
+        if id(s) in seen:
+            return True
+        seen.add(id(s))
+    return False
+
+
+_generic0 = generic
+
+
+def generic(op, old_ir, new_ir, call):  # noqa: F811
+    d = _generic0(op, old_ir, new_ir, call) or {}
+    if has_diamond(old_ir):
+        d["shared_stmt_objects"] = True
+    return d
+
+
+def _block_of_gap(gap_cursor):
+    """(statements before the gap, statements after it, enclosing loops innermost first)"""
+    from exo.core import internal_cursors as IC
+
+    impl = gap_cursor._impl
+    anchor = impl.anchor()
+    path = anchor._path
+    root = impl._root
+    par = path[:-1]
+    attr, i = path[-1]
+    parent = irutil.node_at(root, par) if par else root
+    blk = getattr(parent, attr)
+    k = i if impl.type() == IC.GapType.Before else i + 1
+    loops = []
+    for j in range(len(par), 0, -1):
+        n = irutil.node_at(root, par[:j])
+        if isinstance(n, LoopIR.For):
+            loops.append(n)
+    return blk[:k], blk[k:], loops
+
+
+def _assign_targets(stmts, cls):
+    out = set()
+    for _, s in irutil._iter_block(list(stmts), (), "body"):
+        if isinstance(s, cls):
+            out.add(s.name)
+    return out
+
+
+def _free_syms(stmts):
+    out = set()
+    for _, s in irutil._iter_block(list(stmts), (), "body"):
+        for _, _, e in irutil.stmt_exprs(s):
+            for _, sub in irutil.sub_exprs(e):
+                if isinstance(sub, LoopIR.Read):
+                    out.add(sub.name)
+    return out
+
+
+def d_fission(old_ir, new_ir, call):
+    gap = call.kwargs.get("gap_cursor")
+    n_lifts = call.kwargs.get("n_lifts", 1)
+    pre, post, loops = _block_of_gap(gap)
+    a1 = _assign_targets(pre, LoopIR.Assign)
+    red2 = _assign_targets(post, LoopIR.Reduce)
+    iters = {l.iter for l in loops[:n_lifts]}
+    return {
+        "pre_assigns_what_post_reduces": bool(a1 & red2),
+        "pre_mentions_iter": bool(iters & _free_syms(pre)),
+    }
+
+
+def d_autofission(old_ir, new_ir, call):
+    """would the checked variant (fission) refuse the same split?"""
+    from . import hooks
+    from exo.API_scheduling import fission
+
+    d = {}
+    hooks.REC.enabled = False
+    try:
+        try:
+            fission(call.proc_in, call.kwargs.get("gap_cursor"), call.kwargs.get("n_lifts", 1))
+            d["fission_rejects"] = False
+        except Exception as e:
+            d["fission_rejects"] = type(e).__name__
+    finally:
+        hooks.REC.enabled = True
+    return d
+
+
+def d_stage_mem(old_ir, new_ir, call):
+    blk = call.kwargs.get("block_cursor")
+    buf_name, w_exprs = call.kwargs.get("win_expr")
+    stmts = [c._impl._node for c in blk]
+    reads = set()
+    writes = set()
+    for _, s in irutil._iter_block(stmts, (), "body"):
+        if isinstance(s, (LoopIR.Assign, LoopIR.Reduce)) and str(s.name) == buf_name:
+            writes.add("w")
+            if isinstance(s, LoopIR.Reduce):
+                reads.add("r")
+        for _, _, e in irutil.stmt_exprs(s):
+            for _, sub in irutil.sub_exprs(e):
+                if isinstance(sub, (LoopIR.Read, LoopIR.WindowExpr)) and str(sub.name) == buf_name:
+                    reads.add("r")
+    slice_window = any(isinstance(w, tuple) for w in w_exprs)
+    return {"block_writes_never_reads": bool(writes) and not reads, "slice_window": slice_window, "accum": bool(call.kwargs.get("accum"))}
